@@ -349,8 +349,11 @@ def replay_native(crate, harness, replay_file, timeout=1800):
     m = re.search(r"panicked at ([^\n]*)\n([^\n]*)", out + err)
     return {
         'cmd': 'cd %s && RUSTFLAGS="--cfg libtw2_verif" VERIF_REPLAY=%s %s' % (REPO, replay_file, ' '.join(cmd)),
-        'reproduced': bool(ran and ran.group(1) == 'FAILED'),
-        'ran': bool(ran),
+        # with --nocapture the verdict word can be separated from `test <name> ...` by the harness' own output: also accept the
+        # summary line of this single-test run together with a panic message
+        'reproduced': bool(ran and ran.group(1) == 'FAILED') or bool(
+            re.search(r'test result: FAILED\. 0 passed; 1 failed', out + err) and m and harness in (out + err)),
+        'ran': bool(ran) or ('running 1 test' in (out + err)),
         'panic': (m.group(1) + ' ' + m.group(2)) if m else None,
         'output_tail': (out + err)[-2500:],
     }
